@@ -98,6 +98,12 @@ def main(pid, tier, seed):
         d = os.path.join(work, 'r%d' % k)
         desc = expand.tie_group_ruleset(rng, d) if k % 4 == 0 else expand.rich_ruleset(rng, d)
         rule_dirs.append((d, desc))
+    d = os.path.join(work, 'long')
+    rule_dirs.append((d, expand.long_alpha_ruleset(rng, d)))
+    if pid == 'C04':
+        for k in range(2 if tier == 'quick' else 20):
+            d = os.path.join(work, 'dense%d' % k)
+            rule_dirs.append((d, expand.dense_omen_ruleset(rng, d)))
 
     limit_jobs = []
     for d, desc in rule_dirs:
